@@ -97,8 +97,16 @@ type Fn struct {
 	ErrAt  int      `json:"errat,omitempty"`  // 0: error is the last result; k>0: error sits before result k-1 (clipped)
 	Var    string   `json:"var,omitempty"`    // variadic element type
 	Faults []int    `json:"faults,omitempty"` // per execution; beyond the list: ok
-	Bank   int      `json:"bank,omitempty"`   // >0: declared function bank entry (Bank-1)
-	Dur    int      `json:"dur,omitempty"`    // mock clock advance inside the body (ns)
+	// EK / PK: what a failing execution fails with. EK 0: a plain sentinel
+	// error, 1: a sentinel error that wraps a dig.Error obtained elsewhere
+	// (as user code that uses a second container would return). PK 0: a
+	// non-error sentinel value, 1: an error value, 2: an error value wrapping
+	// a dig missing-type error, 3: an error value wrapping a dig cycle error,
+	// 4: a string.
+	EK   int `json:"ek,omitempty"`
+	PK   int `json:"pk,omitempty"`
+	Bank int `json:"bank,omitempty"` // >0: declared function bank entry (Bank-1)
+	Dur  int `json:"dur,omitempty"`  // mock clock advance inside the body (ns)
 	// Reenter: during its first execution the body calls back into the
 	// container: Invoke on scope S of a function with parameters P, ignoring
 	// the returned error (re-entrant use from inside user code, C02).
@@ -148,9 +156,9 @@ type Opts struct {
 	// InfoSlot > 0: the Info struct is shared with every other op of the same
 	// kind (Provide / Decorate / Invoke) that names the same slot, i.e. one
 	// struct is reused for several calls; 0: a fresh pre-filled struct.
-	InfoSlot int `json:"infoslot,omitempty"`
-	CB     bool     `json:"cb,omitempty"`
-	LocPC  string   `json:"locpc,omitempty"` // "", "zero", "self", "junk"
+	InfoSlot int    `json:"infoslot,omitempty"`
+	CB       bool   `json:"cb,omitempty"`
+	LocPC    string `json:"locpc,omitempty"` // "", "zero", "self", "junk"
 }
 
 func (p Param) isObj() bool  { return p.IsObj || len(p.Obj) > 0 }
@@ -306,6 +314,9 @@ func (f *Fn) Short() string {
 	s := fmt.Sprintf("f%d(%s)(%s)", f.ID, strings.Join(ps, ","), strings.Join(rs, ","))
 	if len(f.Faults) > 0 {
 		s += fmt.Sprintf("!%v", f.Faults)
+		if f.EK != 0 || f.PK != 0 {
+			s += fmt.Sprintf("(ek%d,pk%d)", f.EK, f.PK)
+		}
 	}
 	if f.Bank > 0 {
 		s += fmt.Sprintf("#bank%d", f.Bank-1)
